@@ -9,6 +9,78 @@ import (
 
 func zzB2I(b bool) int { return zzIte(b, 1, 0) }
 
+// zzOwnLifetime: a lifetime as CoreRAD's own RA may carry it: any nanosecond
+// value in [0, ndp.Infinity] (what the configuration parser accepts, C02, and
+// what a deprecated lifetime counts down through).
+func zzOwnLifetime(name string) time.Duration {
+	d := zzNondetDuration(name)
+	zzAssume(zzAnd(d >= 0, d <= ndp.Infinity))
+	return d
+}
+
+// zzRecvLifetime: a lifetime as decoded from a received packet: 32 bits of
+// whole seconds.
+func zzRecvLifetime(name string) time.Duration {
+	return time.Duration(zzNondetUint32(name)) * time.Second
+}
+
+// zzOnWire: the lifetime an identically configured peer's packet carries:
+// ndp encodes a lifetime as uint32(d.Seconds()) and decodes whole seconds.
+// H12oracle checks this definition against ndp's real encoder and decoder for
+// every option kind that carries a lifetime.
+func zzOnWire(d time.Duration) time.Duration {
+	return time.Duration(uint32(d.Seconds())) * time.Second
+}
+
+// H12oracle: zzOnWire is what ndp's codec does to the lifetime of a prefix,
+// route, RDNSS and DNSSL option (any own lifetime in [0, ndp.Infinity]).
+func zzH12oracle() {
+	d := zzOwnLifetime("lifetime")
+	var o ndp.Option
+	kind := zzNondetChoice("option-kind", 5)
+	switch kind {
+	case 0:
+		o = &ndp.PrefixInformation{PrefixLength: 64, Prefix: netip.MustParseAddr("2001:db8::"), ValidLifetime: d, PreferredLifetime: time.Hour}
+	case 1:
+		o = &ndp.PrefixInformation{PrefixLength: 64, Prefix: netip.MustParseAddr("2001:db8::"), ValidLifetime: time.Hour, PreferredLifetime: d}
+	case 2:
+		o = &ndp.RouteInformation{PrefixLength: 48, Prefix: netip.MustParseAddr("2001:db8::"), RouteLifetime: d}
+	case 3:
+		o = &ndp.RecursiveDNSServer{Lifetime: d, Servers: []netip.Addr{netip.IPv6Unspecified()}}
+	default:
+		o = &ndp.DNSSearchList{Lifetime: d, DomainNames: []string{"example.com"}}
+	}
+	b, err := ndp.MarshalMessage(&ndp.RouterAdvertisement{Options: []ndp.Option{o}})
+	zzAssert(err == nil, "encodes")
+	if err != nil {
+		return
+	}
+	m, err := ndp.ParseMessage(b)
+	zzAssert(err == nil, "decodes")
+	if err != nil {
+		return
+	}
+	var got time.Duration
+	switch p := m.(*ndp.RouterAdvertisement).Options[0].(type) {
+	case *ndp.PrefixInformation:
+		got = p.ValidLifetime
+		if kind == 1 {
+			got = p.PreferredLifetime
+		}
+	case *ndp.RouteInformation:
+		got = p.RouteLifetime
+	case *ndp.RecursiveDNSServer:
+		got = p.Lifetime
+	case *ndp.DNSSearchList:
+		got = p.Lifetime
+	}
+	zzAssert(got == zzOnWire(d), "wire-lifetime-is-uint32-of-seconds")
+	zzAssert(zzAnd(got <= d+time.Second, d-got < time.Second), "wire-lifetime-within-a-second")
+}
+
+// zzDiffer: our lifetime and a received one are different on the wire.
+func zzDiffer(ours, theirs time.Duration) bool { return zzOnWire(ours) != theirs }
+
 // zzCount: how many problems carry this field label.
 func zzCount(ps []problem, field string) int {
 	n := 0
@@ -20,24 +92,34 @@ func zzCount(ps []problem, field string) int {
 	return n
 }
 
-// H12ra: header fields.
+// zzOwnTimer: a reachable time / retransmit timer as configured: any
+// nanosecond value in [0, 1h] (what the configuration parser accepts).
+func zzOwnTimer(name string) time.Duration {
+	d := zzNondetDuration(name)
+	zzAssume(zzAnd(d >= 0, d <= time.Hour))
+	return d
+}
+
+// H12ra: header fields (a is ours, b is decoded from a packet).
 func zzH12ra() {
 	a := &ndp.RouterAdvertisement{
 		CurrentHopLimit: zzNondetUint8("a.hop"), ManagedConfiguration: zzNondetBool("a.m"), OtherConfiguration: zzNondetBool("a.o"),
-		ReachableTime: zzNondetDuration("a.reach"), RetransmitTimer: zzNondetDuration("a.retrans"),
+		ReachableTime: zzOwnTimer("a.reach"), RetransmitTimer: zzOwnTimer("a.retrans"),
 		RouterLifetime: zzNondetDuration("a.life"), RouterSelectionPreference: ndp.Preference(zzNondetChoice("a.pref", 2)),
 	}
 	b := &ndp.RouterAdvertisement{
 		CurrentHopLimit: zzNondetUint8("b.hop"), ManagedConfiguration: zzNondetBool("b.m"), OtherConfiguration: zzNondetBool("b.o"),
-		ReachableTime: zzNondetDuration("b.reach"), RetransmitTimer: zzNondetDuration("b.retrans"),
+		ReachableTime: time.Duration(zzNondetUint32("b.reach")) * time.Millisecond, RetransmitTimer: time.Duration(zzNondetUint32("b.retrans")) * time.Millisecond,
 		RouterLifetime: zzNondetDuration("b.life"), RouterSelectionPreference: ndp.Preference(zzNondetChoice("b.pref", 2)),
 	}
 	ps := verifyRAs(a, b)
 	zzAssert(zzCount(ps, "hop_limit") == zzB2I(a.CurrentHopLimit != b.CurrentHopLimit), "hop-limit-iff-differs")
 	zzAssert(zzCount(ps, "managed_configuration") == zzB2I(a.ManagedConfiguration != b.ManagedConfiguration), "managed-iff-differs")
 	zzAssert(zzCount(ps, "other_configuration") == zzB2I(a.OtherConfiguration != b.OtherConfiguration), "other-iff-differs")
-	zzAssert(zzCount(ps, "reachable_time") == zzB2I(zzAnd(zzAnd(a.ReachableTime != 0, b.ReachableTime != 0), a.ReachableTime != b.ReachableTime)), "reachable-iff-both-set-and-differ")
-	zzAssert(zzCount(ps, "retransmit_timer") == zzB2I(zzAnd(zzAnd(a.RetransmitTimer != 0, b.RetransmitTimer != 0), a.RetransmitTimer != b.RetransmitTimer)), "retransmit-iff-both-set-and-differ")
+	// ours are compared as they appear on the wire (whole milliseconds)
+	reachA, retransA := a.ReachableTime/time.Millisecond*time.Millisecond, a.RetransmitTimer/time.Millisecond*time.Millisecond
+	zzAssert(zzCount(ps, "reachable_time") == zzB2I(zzAnd(zzAnd(reachA != 0, b.ReachableTime != 0), reachA != b.ReachableTime)), "reachable-iff-both-set-and-differ")
+	zzAssert(zzCount(ps, "retransmit_timer") == zzB2I(zzAnd(zzAnd(retransA != 0, b.RetransmitTimer != 0), retransA != b.RetransmitTimer)), "retransmit-iff-both-set-and-differ")
 	zzAssert(len(ps) == zzCount(ps, "hop_limit")+zzCount(ps, "managed_configuration")+zzCount(ps, "other_configuration")+zzCount(ps, "reachable_time")+zzCount(ps, "retransmit_timer"), "nothing-else")
 }
 
@@ -85,10 +167,14 @@ func zzH12captive() {
 	zzAssert(len(ps) == zzCount(ps, "captive_portal"), "nothing-else")
 }
 
-func zzNondetPI(name string) *ndp.PrefixInformation {
+func zzNondetPI(name string, ours bool) *ndp.PrefixInformation {
+	life := zzRecvLifetime
+	if ours {
+		life = zzOwnLifetime
+	}
 	return &ndp.PrefixInformation{
 		PrefixLength: zzNondetUint8(name + ".len"), OnLink: zzNondetBool(name + ".l"), AutonomousAddressConfiguration: zzNondetBool(name + ".a"),
-		ValidLifetime: zzNondetDuration(name + ".valid"), PreferredLifetime: zzNondetDuration(name + ".pref"),
+		ValidLifetime: life(name + ".valid"), PreferredLifetime: life(name + ".pref"),
 		Prefix: zzNondetAddr6(name + ".prefix"),
 	}
 }
@@ -100,13 +186,13 @@ func zzH12prefix() {
 	na, nb := zzNondetChoice("a.n", n+1), zzNondetChoice("b.n", n+1)
 	var pa, pb []*ndp.PrefixInformation
 	for i := 0; i < na; i++ {
-		p := zzNondetPI("a" + string(rune('0'+i)))
+		p := zzNondetPI("a"+string(rune('0'+i)), true)
 		pa = append(pa, p)
 		a.Options = append(a.Options, p)
 	}
 	b.Options = append(b.Options, ndp.NewMTU(1500))
 	for i := 0; i < nb; i++ {
-		p := zzNondetPI("b" + string(rune('0'+i)))
+		p := zzNondetPI("b"+string(rune('0'+i)), false)
 		pb = append(pb, p)
 		b.Options = append(b.Options, p)
 	}
@@ -115,8 +201,8 @@ func zzH12prefix() {
 	for _, x := range pa {
 		for _, y := range pb {
 			match := zzAnd(x.Prefix == y.Prefix, x.PrefixLength == y.PrefixLength)
-			wantPref += zzB2I(zzAnd(match, x.PreferredLifetime != y.PreferredLifetime))
-			wantValid += zzB2I(zzAnd(match, x.ValidLifetime != y.ValidLifetime))
+			wantPref += zzB2I(zzAnd(match, zzDiffer(x.PreferredLifetime, y.PreferredLifetime)))
+			wantValid += zzB2I(zzAnd(match, zzDiffer(x.ValidLifetime, y.ValidLifetime)))
 		}
 	}
 	zzAssert(zzCount(ps, "prefix_information_preferred_lifetime") == wantPref, "preferred-lifetime-reports")
@@ -124,10 +210,14 @@ func zzH12prefix() {
 	zzAssert(len(ps) == zzCount(ps, "prefix_information_preferred_lifetime")+zzCount(ps, "prefix_information_valid_lifetime"), "nothing-else")
 }
 
-func zzNondetRI(name string) *ndp.RouteInformation {
+func zzNondetRI(name string, ours bool) *ndp.RouteInformation {
+	life := zzRecvLifetime
+	if ours {
+		life = zzOwnLifetime
+	}
 	return &ndp.RouteInformation{
 		PrefixLength: zzNondetUint8(name + ".len"), Preference: ndp.Preference(zzNondetUint8(name+".pref") & 3),
-		RouteLifetime: zzNondetDuration(name + ".life"), Prefix: zzNondetAddr6(name + ".prefix"),
+		RouteLifetime: life(name + ".life"), Prefix: zzNondetAddr6(name + ".prefix"),
 	}
 }
 
@@ -138,12 +228,12 @@ func zzH12route() {
 	na, nb := zzNondetChoice("a.n", n+1), zzNondetChoice("b.n", n+1)
 	var ra, rb []*ndp.RouteInformation
 	for i := 0; i < na; i++ {
-		r := zzNondetRI("a" + string(rune('0'+i)))
+		r := zzNondetRI("a"+string(rune('0'+i)), true)
 		ra = append(ra, r)
 		a.Options = append(a.Options, r)
 	}
 	for i := 0; i < nb; i++ {
-		r := zzNondetRI("b" + string(rune('0'+i)))
+		r := zzNondetRI("b"+string(rune('0'+i)), false)
 		rb = append(rb, r)
 		b.Options = append(b.Options, r)
 	}
@@ -152,15 +242,19 @@ func zzH12route() {
 	for _, x := range ra {
 		for _, y := range rb {
 			match := zzAnd(zzAnd(x.Prefix == y.Prefix, x.PrefixLength == y.PrefixLength), x.Preference == y.Preference)
-			want += zzB2I(zzAnd(match, x.RouteLifetime != y.RouteLifetime))
+			want += zzB2I(zzAnd(match, zzDiffer(x.RouteLifetime, y.RouteLifetime)))
 		}
 	}
 	zzAssert(zzCount(ps, "route_information_lifetime") == want, "route-lifetime-reports")
 	zzAssert(len(ps) == zzCount(ps, "route_information_lifetime"), "nothing-else")
 }
 
-func zzNondetRDNSS(name string, maxServers int) *ndp.RecursiveDNSServer {
-	r := &ndp.RecursiveDNSServer{Lifetime: zzNondetDuration(name + ".life")}
+func zzNondetRDNSS(name string, maxServers int, ours bool) *ndp.RecursiveDNSServer {
+	life := zzRecvLifetime
+	if ours {
+		life = zzOwnLifetime
+	}
+	r := &ndp.RecursiveDNSServer{Lifetime: life(name + ".life")}
 	ns := zzNondetChoice(name+".nservers", maxServers) + 1
 	for j := 0; j < ns; j++ {
 		r.Servers = append(r.Servers, zzNondetAddr6(name+".s"+string(rune('0'+j))))
@@ -186,12 +280,12 @@ func zzH12rdnss() {
 	na, nb := zzNondetChoice("a.n", n+1), zzNondetChoice("b.n", n+1)
 	var da, db []*ndp.RecursiveDNSServer
 	for i := 0; i < na; i++ {
-		r := zzNondetRDNSS("a"+string(rune('0'+i)), 2)
+		r := zzNondetRDNSS("a"+string(rune('0'+i)), 2, true)
 		da = append(da, r)
 		a.Options = append(a.Options, r)
 	}
 	for i := 0; i < nb; i++ {
-		r := zzNondetRDNSS("b"+string(rune('0'+i)), 2)
+		r := zzNondetRDNSS("b"+string(rune('0'+i)), 2, false)
 		db = append(db, r)
 		b.Options = append(b.Options, r)
 	}
@@ -202,7 +296,7 @@ func zzH12rdnss() {
 			wantCount = 1
 		} else {
 			for i := range da {
-				wantLife += zzB2I(da[i].Lifetime != db[i].Lifetime)
+				wantLife += zzB2I(zzDiffer(da[i].Lifetime, db[i].Lifetime))
 				wantServers += zzB2I(zzNot(zzAddrsEqual(da[i].Servers, db[i].Servers)))
 			}
 		}
@@ -218,8 +312,12 @@ func zzH12rdnss() {
 func zzH12dnssl() {
 	n := zzParam("n")
 	names := []string{"a.example", "b.example"}
-	mk := func(name string, first bool) *ndp.DNSSearchList {
-		d := &ndp.DNSSearchList{Lifetime: zzNondetDuration(name + ".life")}
+	mk := func(name string, first, ours bool) *ndp.DNSSearchList {
+		life := zzRecvLifetime
+		if ours {
+			life = zzOwnLifetime
+		}
+		d := &ndp.DNSSearchList{Lifetime: life(name + ".life")}
 		nn := 1
 		if first {
 			nn = zzNondetChoice(name+".nnames", 2) + 1
@@ -233,12 +331,12 @@ func zzH12dnssl() {
 	na, nb := zzNondetChoice("a.n", n+1), zzNondetChoice("b.n", n+1)
 	var da, db []*ndp.DNSSearchList
 	for i := 0; i < na; i++ {
-		d := mk("a"+string(rune('0'+i)), i == 0)
+		d := mk("a"+string(rune('0'+i)), i == 0, true)
 		da = append(da, d)
 		a.Options = append(a.Options, d)
 	}
 	for i := 0; i < nb; i++ {
-		d := mk("b"+string(rune('0'+i)), i == 0)
+		d := mk("b"+string(rune('0'+i)), i == 0, false)
 		db = append(db, d)
 		b.Options = append(b.Options, d)
 	}
@@ -249,7 +347,7 @@ func zzH12dnssl() {
 			wantCount = 1
 		} else {
 			for i := range da {
-				wantLife += zzB2I(da[i].Lifetime != db[i].Lifetime)
+				wantLife += zzB2I(zzDiffer(da[i].Lifetime, db[i].Lifetime))
 				same := len(da[i].DomainNames) == len(db[i].DomainNames)
 				if same {
 					for j := range da[i].DomainNames {
